@@ -614,13 +614,24 @@ func (g *c09DocGen) endTag(name string) {
 	g.buf = append(g.buf, "</"...)
 	g.buf = append(g.buf, name...)
 	g.maybeRegion("endtag", []string{">"})
+	extra := ""
+	if g.r.Chance(1, 6) && len(g.buf) == start+2+len(name) {
+		// attributes in an end tag (not allowed in HTML, but they must be returned as they are: only the name is lower-cased)
+		extra = g.r.PickStr([]string{" ", "\t", "/"}) + g.caseVar("data-x") + "=" + g.r.PickStr([]string{"Val", "\"A b\"", "'C'", "D/E"})
+		g.buf = append(g.buf, extra...)
+	}
 	w := ""
 	if g.r.Chance(1, 4) {
 		w = g.r.PickStr([]string{" ", "\t", "\n", " \r", "\f", " \f"})
 	}
 	g.buf = append(g.buf, w...)
 	g.buf = append(g.buf, '>')
-	e := c09ExpTok{ty: html.EndTagToken, data: c09LowerASCII(g.buf[start:]), text: c09LowerASCII([]byte(name)), ctx: "endtag"}
+	data := append([]byte("</"), c09LowerASCII([]byte(name))...)
+	data = append(data, g.buf[start+2+len(name):]...)
+	e := c09ExpTok{ty: html.EndTagToken, data: data, text: append(c09LowerASCII([]byte(name)), extra...), ctx: "endtag"}
+	if extra != "" {
+		e.key = "c09-case:endtag" // only the tag name may change case
+	}
 	if strings.Contains(w, "\f") {
 		e.key = "c09-endtag:formfeed" // shiftEndTag trims ' ', \t, \n, \r from Text() but not \f
 	}
@@ -648,7 +659,7 @@ func (g *c09DocGen) rawContent(name string) {
 		case 0:
 			g.buf = append(g.buf, g.r.PickStr([]string{"var a=1;", "x", " ", "\n", "a<b", "a>b", "&amp;", "\"", "'", "<", "</", "<!", "<!-", "-->"})...)
 		case 1: // look-alike end tags
-			g.buf = append(g.buf, g.r.PickStr([]string{"</" + lname + "x>", "</" + g.caseVar(lname) + "s ", "</ " + lname + ">", "< /" + lname + ">", "<\\/" + lname + ">", "</" + lname[:len(lname)-1] + ">", "</-" + lname + ">", "<" + lname + ">"})...)
+			g.buf = append(g.buf, g.r.PickStr([]string{"</" + lname + "x>", "</" + g.caseVar(lname) + "s ", "</ " + lname + ">", "< /" + lname + ">", "<\\/" + lname + ">", "</" + lname[:len(lname)-1] + ">", "</-" + lname + ">", "<" + lname + ">", "</" + lname + "-x>", "</" + g.caseVar(lname) + "1 >", "</" + lname + "=>", "</" + lname + "\x00>"})...)
 		case 2: // other end tags and tags
 			other := g.r.PickStr([]string{"a", "p", "style", "script", "title", "svg", "b"})
 			if other == lname {
@@ -702,7 +713,16 @@ func c09RawContentClean(content, lname string, script bool) bool {
 			return true
 		}
 		k := i + j + 2 + len(lname)
-		if k >= len(lc) || !(lc[k] >= 'a' && lc[k] <= 'z') {
+		isLetter := k < len(lc) && lc[k] >= 'a' && lc[k] <= 'z'
+		isEndTag := k >= len(lc) || c09IsWS(lc[k]) || lc[k] == '/' || lc[k] == '>'
+		if script && !isLetter && !isEndTag {
+			// "</script-x": not an end tag, but inside a "<!--" section the lexer still stops there (known finding)
+			pre := lc[:i+j]
+			if open := strings.LastIndex(pre, "<!--"); open >= 0 && strings.LastIndex(pre, "-->") < open {
+				return false
+			}
+		}
+		if isEndTag {
 			if !script {
 				return false
 			}
@@ -940,7 +960,9 @@ var c09Tricky = []string{
 	"<style></style>", "<style>a</STYLE\n>b", "<title></title-x>b</title>", "<textarea></textarea x>", "<xmp><b></xmp>", "<iframe></iframes></iframe>", "<plaintext>a</plaintext><b>", "<PlainText/>x",
 	"<svg></SVG>", "<svg><path d=\"</svg>\"/></svg>x", "<svg>\"</svg>", "<svg></svgx></svg >", "<svg", "<svg>", "<svg></svg", "<svg>\x00</svg><svg></svg>x<math></math>", "<math></MATH>", "<xml></xml>", "<svgx></svgx>",
 	"a<b", "a< b", "a<", "a<1", "<a>\x00</a>", "\x00", "a\x00<b>\x00</b>", "<a\x00b=c\x00>", "</a\x00>", "<a b='\x00'>", "</\x00", "</\x00>", "<\x00",
-	"</A B=C>", "<A B=C>", "<a B>", "</a\r>", "</a\f>", "</a \t\n\r>", "<a\fb\f=\fc\f>", "<a b='c'\f/>",
+	"</A B=C>", "</A X=Y \f>", "</Ab/Cd>", "</A\tB='C D'/>", "</a\f>", "</a \f >", "</a\f", "</A", "</AB>", "</", "<A B=C>",
+	"<title>a</title-x>b</title", "<title>a</title", "<title>a</title/>", "<title>a</title\f>", "<title>a</TITLE\n>", "<title></title1></title>", "<title></title=></title >",
+	"<script><!--a</script-x>b--></script>c", "<script><!--<script></script-x></script>", "<style></style\x00></style>", "<xmp></xmp\x00", "<a B>", "</a\r>", "</a\f>", "</a \t\n\r>", "<a\fb\f=\fc\f>", "<a b='c'\f/>",
 	"{{x}}", "a{{x}}b", "{{", "{{\"}}\"}}", "{{'\\'}}'}}", "{{\"\\\\\"}}", "<a{{x}}>", "<a {{x}}={{y}}>", "<a b={{y}}{{z}}c>", "<a b=\"{{\"}}\"{{x}}>", "<a b='c'{{x}}>", "<script>{{\"</script>\"}}</script>",
 	"<%x%>", "a<%x%>b", "<a<%x%>>", "<a b=<%x%>>", "<script><%\"</script>\"%></script>", "<?x?>", "a<?x?>b", "<a <?x?>>", "<!--{{x}}-->", "</a{{x}}>", "<svg>{{x}}</svg>",
 }
@@ -1293,8 +1315,13 @@ func c09CheckRawText(rep *Report, d []byte, tmpl *[2]string) {
 						viol("c09-rawtext:plaintext", fmt.Sprintf("token %v after plaintext content", e.ty))
 					}
 				} else if e.ty == html.EndTagToken {
-					if string(e.text) != raw {
-						viol("c09-rawtext:endtag-prefix", fmt.Sprintf("raw text of <%s> ended at the end tag %q whose name is %q", raw, e.data, e.text))
+					if string(e.text) != raw && !bytes.HasPrefix(e.text, []byte(raw+" ")) && !bytes.HasPrefix(e.text, []byte(raw+"\t")) &&
+						!bytes.HasPrefix(e.text, []byte(raw+"\n")) && !bytes.HasPrefix(e.text, []byte(raw+"\r")) && !bytes.HasPrefix(e.text, []byte(raw+"\f")) && !bytes.HasPrefix(e.text, []byte(raw+"/")) {
+						k := "c09-rawtext:endtag-prefix"
+						if raw == "script" && n.ty == html.TextToken && bytes.Contains(n.data, []byte("<!--")) {
+							k = "c09-rawtext:endtag-prefix-script-comment" // the check of the byte after the name is missing in the "<!--" branch
+						}
+						viol(k, fmt.Sprintf("raw text of <%s> ended at the end tag %q whose name is %q", raw, e.data, e.text))
 					}
 				} else if e.ty != html.ErrorToken {
 					viol("c09-rawtext:end:"+raw, fmt.Sprintf("raw text of <%s> followed by %v %q", raw, e.ty, e.data))
@@ -1316,6 +1343,12 @@ func c09Invariants(r *Rng, tier string, rep *Report) {
 	// fixed witnesses first
 	c09CheckInvariants(rep, "witness", []byte("</a X=Y>"), nil)
 	c09CheckRawText(rep, []byte("<title>a</title-x>b</title>c"), nil)
+	c09CheckRawText(rep, []byte("<script><!--a</script-x>b--></script>c"), nil)
+	c09CheckRawText(rep, []byte("<script>a</script-x>b</script>c"), nil)
+	for _, w := range []string{"</A X=Y>", "</a\f>", "</a \f >", "</A\tB='C D'/>", "</Ab/Cd>", "<title>a</TITLE-x>b</title", "<title>a</title", "<textarea>a</textarea\f>"} {
+		c09CheckInvariants(rep, "witness", []byte(w), nil)
+		c09CheckRawText(rep, []byte(w), nil)
+	}
 	depth := 4
 	n := 20000
 	if tier == "thorough" {
@@ -1397,6 +1430,11 @@ func c09Constructs(r *Rng, tier string, rep *Report) {
 	c09CompareExp(rep, []byte("<svg><text>5\" pipe</text></svg><p>"), "", "", []c09ExpTok{
 		{ty: html.SVGToken, data: []byte("<svg><text>5\" pipe</text></svg>"), ctx: "svg", key: "c09-svg:quote"},
 		{ty: html.StartTagToken, data: []byte("<p"), ctx: "starttag"}, {ty: html.StartTagCloseToken, ctx: "close"}})
+	c09CompareExp(rep, []byte("</A X=Y \f>"), "", "", []c09ExpTok{{ty: html.EndTagToken, data: []byte("</a X=Y \f>"), text: []byte("a X=Y"), ctx: "endtag", key: "c09-case:endtag"}})
+	c09CompareExp(rep, []byte("<title>a</title-x>b</title"), "", "", []c09ExpTok{
+		{ty: html.StartTagToken, data: []byte("<title"), ctx: "starttag"}, {ty: html.StartTagCloseToken, ctx: "close"},
+		{ty: html.TextToken, data: []byte("a</title-x>b"), ctx: "rawtext:title", key: "c09-rawtext:endtag-prefix"},
+		{ty: html.EndTagToken, data: []byte("</title"), text: []byte("title"), ctx: "endtag"}})
 	c09CompareExp(rep, []byte("<title>a</title-x>b</title>"), "", "", []c09ExpTok{
 		{ty: html.StartTagToken, data: []byte("<title"), ctx: "starttag"}, {ty: html.StartTagCloseToken, ctx: "close"},
 		{ty: html.TextToken, data: []byte("a</title-x>b"), ctx: "rawtext:title", key: "c09-rawtext:endtag-prefix"},
